@@ -223,6 +223,12 @@ contains
     case ("char_grow")
        allocate(character(len=a) :: buf); buf = text(1:min(a, len(text)))
        call sim_phase(1); call char_grow(buf); call sim_phase(0); call res_str(buf); deallocate(buf)
+    case ("char_arr")
+       allocate(character(len=b) :: names(a))
+       do i = 1, a
+          names(i) = repeat("w", mod(i, b + 1))
+       end do
+       call sim_phase(1); r = char_arr_len(names, int(a, C_INT)); call sim_phase(0); call res_int(int(r)); deallocate(names)
     case ("ref_item")
        call sim_phase(1); h(a) = ref_item(); call sim_phase(0); call res_none()
     case ("vec_ret_d")
